@@ -202,4 +202,152 @@ Proof.
     rewrite <- Hc. apply Hcommon. reflexivity.
 Qed.
 
+Definition fresh (d:dst) : bool := negb (d_ifull d) && negb (d_vfull d).
+
+Definition InvR (m:nat) (d:dst) : Prop :=
+  (m <= length rows)%nat /\ d_hdr d = false /\ d_acc d = Z.of_nat m /\
+  d_imps d = map (imp_of (firstn m rows)) index_map /\
+  okoffs (d_offs d) /\ len (d_vals d) = nthZ (d_offs d) ncols /\
+  (exists wd, 2 <= wd /\ shape ncols wd (d_inds d)) /\ (forall c, 0 <= c < ncols -> I2 (d_inds d) c 0 = 0) /\
+  (if fresh d then d_chunk d = pos m
+   else d_chunk d < len file /\ 0 <= d_start d <= len (d_content d) /\ d_chunk d + d_start d = pos m /\
+        exists (k:nat) p, (k <= length (skipn m rows))%nat /\
+          suf (d_content d) (d_start d) = render_file (firstn k (skipn m rows)) ++ p /\
+          cutp (skipn m rows) k p /\ (d_start d = 0 -> (1 <= k)%nat)).
+
+Definition Mz (d:dst) : Z := 2 * (len rows - d_acc d) + 2 * mu (d_offs d) + (if fresh d then 0 else 1).
+
+Lemma pos_add m j : pos (m + j) = pos m + len (render_file (firstn j (skipn m rows))).
+Proof. unfold pos. rewrite firstn_add. rewrite <- len_app, <- render_file_app. reflexivity. Qed.
+
+Lemma okoffs_nonneg o c : okoffs o -> 0 <= c <= ncols -> 0 <= nthZ o c.
+Proof.
+  intros (Hl & H0 & Hb) Hc. apply (offs_nonneg1 o 0 ncols [] H0 Hb c Hc).
+Qed.
+
+Lemma render_file_firstn_pos (T:list (list cell)) (j:nat) : (1 <= j)%nat -> (j <= length T)%nat -> 0 < len (render_file (firstn j T)).
+Proof.
+  intros H1 H2. destruct T as [|r0 T]; [cbn in H2; lia|]. destruct j; [lia|]. cbn [firstn]. rewrite render_file_cons, len_app.
+  pose proof (len_render_row_ge r0) as (_ & Hg). pose proof (len_nonneg (render_file (firstn j T))). lia.
+Qed.
+
+(* a kernel call followed by the import and the regrowth bookkeeping *)
+Lemma after_call (m:nat) chunk hd inds vals offsd dif dvf cont st tr content start base (k:nat) p out wd :
+  (m <= length rows)%nat ->
+  (if negb dif && negb dvf
+   then content = content_of file cbs chunk /\ start = 0 /\ len (slice file chunk (chunk + cbs)) <> 0
+   else content = cont /\ start = st) ->
+  okoffs offsd -> len vals = nthZ offsd ncols -> 2 <= wd -> shape ncols wd inds ->
+  fast_csv_reader (fsm_fuel content start) content start inds vals offsd hd = Ok out ->
+  KOut content offsd (wd - 1) ncols (nthZ offsd ncols) (skipn m rows) k base out ->
+  chunk + base = pos m -> 0 <= base <= len content -> chunk < len file ->
+  (k <= length (skipn m rows))%nat ->
+  suf content base = render_file (firstn k (skipn m rows)) ++ p -> cutp (skipn m rows) k p ->
+  (base = 0 -> (1 <= k)%nat) ->
+  (hd = false -> negb dif && negb dvf = true -> (1 <= k)%nat) ->
+  exists (j:nat) d',
+    drv_step file ncols cbs index_map
+      (mkDst chunk hd (Z.of_nat m) inds vals offsd dif dvf cont st (map (imp_of (firstn m rows)) index_map) tr) = Ok (inl d') /\
+    InvR (m + j) d' /\
+    Mz d' + 1 <= 2 * (len rows - Z.of_nat m) + 2 * mu offsd + (if negb dif && negb dvf then 0 else 1) + (if hd then 2 else 0).
+Proof.
+  intros Hm Hfr Hok Hlv Hwd Hsh Hk (j & Hjk & Hrows & Hjm & Hnext & HG & Hcase) Hpos Hbase Hchunk Hkl Hsuf Hcut Hb0 Hk1.
+  set (T := skipn m rows) in *.
+  assert (HlT : length T = (length rows - m)%nat) by (unfold T; apply skipn_length).
+  pose proof Hok as (Hlo & Ho0 & Hob).
+  assert (Hw1 : wd - 1 + 1 = wd) by lia.
+  pose proof (len_nonneg (render_file (firstn j T))) as Hlrf.
+  assert (Hjpos : (1 <= j)%nat -> 0 < len (render_file (firstn j T))) by (intros; apply render_file_firstn_pos; lia).
+  (* the import *)
+  pose proof (GoodL_Good offsd (wd - 1) ncols (nthZ offsd ncols) T _ _ _ HG) as HG1. rewrite Hw1 in HG1.
+  pose proof (Good_firstn ncols wd (nthZ offsd ncols) offsd T j (f_inds out) (f_vals out) ltac:(lia) HG1) as HG2.
+  set (recs := firstn j T) in *.
+  assert (Hlrecs : len recs = Z.of_nat j) by (unfold recs, len; rewrite firstn_length; lia).
+  assert (Hbrecs : forall c, 0 <= c < ncols -> nthZ offsd c + len (CB recs c) < nthZ offsd (c + 1)).
+  { intros c Hc. destruct HG as (_ & _ & HGc). destruct (HGc c Hc) as (_ & Hbd & _). unfold bud in Hbd.
+    unfold recs. rewrite len_CB_firstn_P. lia. }
+  pose proof (import_all_gen ncols wd (nthZ offsd ncols) offsd recs Hlo ltac:(lia) Ho0 Hbrecs ltac:(lia)
+                (f_inds out) (f_vals out) HG2 index_map (map (imp_of (firstn m rows)) index_map) Himap ltac:(apply map_length)) as Himp.
+  rewrite Hlrecs, <- Hrows in Himp.
+  assert (Hnv : f_ifull out = false -> f_vfull out = false -> 0 < f_next out).
+  { intros E1 E2. destruct Hcase as [(A & _)|[(_ & A & _)|(_ & _ & A)]]; try congruence. subst j.
+    rewrite Hnext. destruct (Z.eq_dec base 0) as [E0|E0]; [|lia]. specialize (Hjpos (Hb0 E0)). lia. }
+  assert (Hvfc : f_vfull out = true -> 0 <= f_vfc out < ncols).
+  { intros E. destruct Hcase as [(_ & _ & A & _)|[(A & _)|(A & _)]]; [exact A|congruence|congruence]. }
+  destruct (drv_step_post2 chunk hd (Z.of_nat m) inds vals offsd dif dvf cont st _ tr content start out _ Hfr Hk Hnv Himp Hvfc Hlo)
+    as (d' & Hd & D1 & D2 & D3 & D4 & D5 & D6 & D7 & D8 & D9 & D10 & D11).
+  exists j, d'. split; [exact Hd|]. subst recs.
+  (* facts common to all outcomes *)
+  assert (Hmj : (m + j <= length rows)%nat) by lia.
+  assert (Himps' : d_imps d' = map (imp_of (firstn (m + j) rows)) index_map).
+  { rewrite D11, combine_map_same, map_map. apply map_ext. intros c. cbn [fst snd]. rewrite imp_add_of, firstn_add. reflexivity. }
+  assert (Hacc' : d_acc d' = Z.of_nat (m + j)) by (rewrite D3, Hrows; lia).
+  assert (Hposj : chunk + f_next out = pos (m + j)) by (rewrite pos_add; fold T; lia).
+  assert (Hnle : f_next out <= len content).
+  { destruct (suf_bound content base _ ltac:(lia) Hsuf) as [Hb|Hb].
+    - assert (Hkj : firstn k T = firstn j T ++ firstn (k - j) (skipn j T)) by (replace k with (j + (k - j))%nat at 1 by lia; apply firstn_add).
+      rewrite Hkj, render_file_app, !len_app in Hb. pose proof (len_nonneg (render_file (firstn (k - j) (skipn j T)))). pose proof (len_nonneg p). lia.
+    - apply app_eq_nil in Hb. destruct Hb as (Hb & _).
+      assert (j = 0%nat \/ (1 <= j)%nat) as [->|Hj1] by lia; [cbn [firstn render_file map concat] in Hnext; replace (len (@nil Z)) with 0 in Hnext by reflexivity; lia|].
+      assert (Hkp : 0 < len (render_file (firstn k T))) by (apply render_file_firstn_pos; lia). rewrite Hb in Hkp. cbn in Hkp. lia. }
+  assert (Hshape_out : shape ncols wd (f_inds out)) by (destruct HG1 as (A & _); exact A).
+  assert (HI0 : forall c, 0 <= c < ncols -> I2 (f_inds out) c 0 = 0).
+  { intros c Hc. destruct HG as (_ & _ & HGc). destruct (HGc c Hc) as (_ & _ & Hi & _). rewrite (Hi 0 ltac:(lia)). apply P_0. }
+  assert (Hlvo : len (f_vals out) = nthZ offsd ncols) by (destruct HG as (_ & A & _); exact A).
+  (* the state in which the same window is re-entered *)
+  assert (Hre : forall k' , k' = (k - j)%nat ->
+            (k' <= length (skipn (m + j) rows))%nat /\
+            suf content (f_next out) = render_file (firstn k' (skipn (m + j) rows)) ++ p /\
+            cutp (skipn (m + j) rows) k' p /\ (f_next out = 0 -> (1 <= k')%nat)).
+  { intros k' ->. assert (Esk : skipn (m + j) rows = skipn j T) by (unfold T; rewrite skipn_skipn_; reflexivity).
+    rewrite Esk. split; [rewrite skipn_length; lia|]. split; [|split].
+    - assert (Hkj : firstn k T = firstn j T ++ firstn (k - j) (skipn j T)) by (replace k with (j + (k - j))%nat at 1 by lia; apply firstn_add).
+      rewrite Hkj, render_file_app, <- app_assoc in Hsuf. rewrite Hnext. apply (suf_app_len content base _ _ ltac:(lia) Hsuf).
+    - destruct Hcut as [->|(Hk2 & q & Hq & Eq)]; [left; reflexivity|right]. split; [rewrite skipn_length; lia|].
+      exists q. split; [exact Hq|]. rewrite nth_skipn_. replace (j + (k - j))%nat with k by lia. exact Eq.
+    - intros E0. assert (j = 0%nat \/ (1 <= j)%nat) as [->|Hj1] by lia.
+      + rewrite Nat.sub_0_r. apply Hb0. cbn [firstn render_file map concat] in Hnext. replace (len (@nil Z)) with 0 in Hnext by reflexivity. lia.
+      + specialize (Hjpos Hj1). lia. }
+  unfold InvR, Mz, fresh. rewrite D2, Hacc', Himps', D4, D5, D6, D7, D8, D9, D10, D1.
+  destruct Hcase as [(Evf & Eif & Hv & Hbv & Hnl)|[(Evf & Eif & Ejm)|(Evf & Eif & Ejk)]]; rewrite Evf, Eif; cbn [orb andb negb].
+  - (* values full: the budget of column vfc is doubled, the window is re-entered *)
+    assert (Elt : (f_next out <? len content) = true) by (apply Z.ltb_lt; exact Hnl). rewrite Elt. cbn [andb negb].
+    pose proof (okoffs_dbl ncols offsd (f_vfc out) Hok Hv) as Hok'.
+    split; [|].
+    + split; [exact Hmj|]. split; [reflexivity|]. split; [reflexivity|]. split; [reflexivity|]. split; [exact Hok'|].
+      split; [rewrite (okoffs_last ncols Hncols _ Hok'); apply len_zeros; apply (okoffs_nonneg _ ncols Hok'); lia|].
+      split; [exists wd; split; [lia|exact Hshape_out]|]. split; [exact HI0|].
+      split; [exact Hchunk|]. split; [lia|]. split; [exact Hposj|].
+      exists (k - j)%nat, p. apply Hre. reflexivity.
+    + assert (Hbv2 : 1 <= bud offsd (f_vfc out) <= len (CB rows (f_vfc out))).
+      { unfold bud. pose proof (Hob (f_vfc out) Hv). pose proof (len_CB_skipn m rows (f_vfc out)). fold T in H0. unfold bud in Hbv. lia. }
+      pose proof (mu_dbl ncols rows Hncols offsd (f_vfc out) Hok Hv Hbv2) as Hmu.
+      destruct (negb dif && negb dvf); destruct hd; lia.
+  - (* indices full *)
+    assert (Hj1 : (1 <= j)%nat) by lia.
+    assert (Hz : shape ncols ((wd - 1) * 2 + 1) (zeros2 ncols ((fst (f_inds out) - 1) * 2 + 1))).
+    { destruct Hshape_out as (Hf & _). rewrite Hf. apply shape_zeros2; lia. }
+    assert (Hz0 : forall c, 0 <= c < ncols -> I2 (zeros2 ncols ((fst (f_inds out) - 1) * 2 + 1)) c 0 = 0).
+    { intros c Hc. destruct Hshape_out as (Hf & _). rewrite Hf. apply I2_zeros2; lia. }
+    destruct (f_next out <? len content) eqn:Elt; cbn [andb negb].
+    + apply Z.ltb_lt in Elt. split.
+      * split; [exact Hmj|]. split; [reflexivity|]. split; [reflexivity|]. split; [reflexivity|]. split; [exact Hok|].
+        split; [exact Hlvo|]. split; [exists ((wd - 1) * 2 + 1); split; [lia|exact Hz]|]. split; [exact Hz0|].
+        split; [exact Hchunk|]. split; [lia|]. split; [exact Hposj|].
+        exists (k - j)%nat, p. apply Hre. reflexivity.
+      * destruct (negb dif && negb dvf); destruct hd; pose proof (mu_nonneg ncols rows offsd); lia.
+    + split.
+      * split; [exact Hmj|]. split; [reflexivity|]. split; [reflexivity|]. split; [reflexivity|]. split; [exact Hok|].
+        split; [exact Hlvo|]. split; [exists ((wd - 1) * 2 + 1); split; [lia|exact Hz]|]. split; [exact Hz0|]. exact Hposj.
+      * destruct (negb dif && negb dvf); destruct hd; pose proof (mu_nonneg ncols rows offsd); lia.
+  - (* the window is consumed *)
+    subst j. split.
+    + split; [exact Hmj|]. split; [reflexivity|]. split; [reflexivity|]. split; [reflexivity|]. split; [exact Hok|].
+      split; [exact Hlvo|]. split; [exists wd; split; [lia|exact Hshape_out]|]. split; [exact HI0|]. exact Hposj.
+    + destruct (negb dif && negb dvf) eqn:Efr0.
+      * destruct hd; [pose proof (mu_nonneg ncols rows offsd); lia|].
+        specialize (Hk1 eq_refl eq_refl). pose proof (mu_nonneg ncols rows offsd). lia.
+      * destruct hd; pose proof (mu_nonneg ncols rows offsd); lia.
+Qed.
+
 End DriverR.
